@@ -16,6 +16,8 @@ import (
 	"strings"
 
 	metav1 "k8s.io/apimachinery/pkg/apis/meta/v1"
+	v1 "k8s.io/api/core/v1"
+	"k8s.io/apimachinery/pkg/api/resource"
 	"k8s.io/apimachinery/pkg/types"
 	"k8s.io/apimachinery/pkg/util/sets"
 
@@ -51,6 +53,11 @@ type MJob struct {
 type MTask struct {
 	sched.TaskSpec
 	Pol, Val int64
+	// InitCPU: cpu requested by an init container (the pod's request is max(init, containers));
+	// TermPending: the pod is in phase Pending, named a node, and has a deletion timestamp
+	// (a bound-not-started member that is terminating: Releasing)
+	InitCPU     int64
+	TermPending bool
 }
 
 type MQueue struct {
@@ -88,7 +95,7 @@ func (c MixSpec) Enc() []int64 {
 	}
 	out = append(out, int64(len(c.Tasks)))
 	for _, t := range c.Tasks {
-		out = append(out, t.ID, t.Job, t.Role, t.Prio, t.CPU, t.Status, t.Node, vh.B(t.Preemptable), t.Pol, t.Val)
+		out = append(out, t.ID, t.Job, t.Role, t.Prio, t.CPU, t.Status, t.Node, vh.B(t.Preemptable), t.Pol, t.Val, t.InitCPU, vh.B(t.TermPending))
 	}
 	out = append(out, vh.B(c.Proportion), int64(len(c.Actions)))
 	out = append(out, c.Actions...)
@@ -112,6 +119,8 @@ func DecMixSpec(r *sched.Tok) MixSpec {
 		t.ID, t.Job, t.Role, t.Prio, t.CPU, t.Status, t.Node = r.Next(), r.Next(), r.Next(), r.Next(), r.Next(), r.Next(), r.Next()
 		t.Preemptable = r.Bool()
 		t.Pol, t.Val = r.Next(), r.Next()
+		t.InitCPU = r.Next()
+		t.TermPending = r.Bool()
 		c.Tasks = append(c.Tasks, t)
 	})
 	c.Proportion = r.Bool()
@@ -357,6 +366,7 @@ func emptySnap() *api.ClusterInfo {
 // ---------- law-only world: real actions over the scripted cache ----------
 
 type MixWorld struct {
+	Init map[int64]api.TaskStatus // status of every TaskInfo as built from its pod
 	Spec   MixSpec
 	Ssn    *framework.Session
 	Tasks  map[int64]*api.TaskInfo
@@ -367,7 +377,7 @@ type MixWorld struct {
 var mixCache *cache.SchedulerCache
 
 func NewMixWorld(spec MixSpec) *MixWorld {
-	w := &MixWorld{Spec: spec, Tasks: map[int64]*api.TaskInfo{}}
+	w := &MixWorld{Spec: spec, Tasks: map[int64]*api.TaskInfo{}, Init: map[int64]api.TaskStatus{}}
 	if mixCache == nil {
 		mixCache = cache.NewDefaultMockSchedulerCache("verif-mix")
 	}
@@ -404,6 +414,15 @@ func NewMixWorld(spec MixSpec) *MixWorld {
 	sort.Slice(tasks, func(a, b int) bool { return tasks[a].ID < tasks[b].ID })
 	for _, t := range tasks {
 		pod := t.TaskSpec.Pod()
+		if t.InitCPU > 0 {
+			pod.Spec.InitContainers = []v1.Container{{Name: "init", Resources: v1.ResourceRequirements{Requests: v1.ResourceList{
+				v1.ResourceCPU: *resource.NewMilliQuantity(t.InitCPU, resource.DecimalSI)}}}}
+		}
+		if t.TermPending {
+			now := metav1.Now()
+			pod.Status.Phase = v1.PodPending
+			pod.DeletionTimestamp = &now
+		}
 		if t.Pol > 0 {
 			pod.Labels[fmt.Sprintf("sg%d", t.Pol)] = fmt.Sprint(t.Val)
 		}
@@ -412,6 +431,7 @@ func NewMixWorld(spec MixSpec) *MixWorld {
 		}
 		ti := api.NewTaskInfo(pod)
 		w.Tasks[t.ID] = ti
+		w.Init[t.ID] = ti.Status
 		if ji, ok := snap.Jobs[ti.Job]; ok {
 			ji.AddTaskInfo(ti)
 		}
@@ -492,7 +512,15 @@ func (w *MixWorld) EncLaw105() []int64 {
 	out = append(out, int64(len(w.Spec.Tasks)))
 	for _, t := range w.Spec.Tasks {
 		ti := w.Tasks[t.ID]
-		out = append(out, t.ID, t.Job, t.Role, vh.B(ti.BestEffort), t.Pol, t.Val, sched.StatusKey(ti.Status))
+		// what the CLUSTER says of the task, not what the TaskInfo claims: an empty request is "no
+		// request on any container, init containers included"; a task the session did not touch has
+		// the status of its pod (the spec's)
+		be := t.CPU == 0 && t.InitCPU == 0
+		st := sched.StatusKey(ti.Status)
+		if ti.Status == w.Init[t.ID] {
+			st = t.Status
+		}
+		out = append(out, t.ID, t.Job, t.Role, vh.B(be), t.Pol, t.Val, st)
 	}
 	out = append(out, int64(len(w.Binds)))
 	out = append(out, w.Binds...)
@@ -755,11 +783,57 @@ func specPipelinedGroup(r *vh.Rng) MixSpec {
 	return spec
 }
 
+// specPodShapes (round 9): gang members built from real pods with requests on init containers only,
+// init > containers, and a terminating bound-not-started member.
+//   variant 0: minMember 2; p1 asks 1 cpu; p2 asks nothing on its containers and `big` on an init
+//              container; the node holds p1 only: p2 is NOT an empty-request pod, nothing may be bound
+//   variant 1: same with containers 500m, init `big` (control for init > containers)
+//   variant 2: minMember 2; a Pending pod already named a node and being deleted (Releasing, does not
+//              count) + p1 fitting: nothing may be bound
+func specPodShapes(r *vh.Rng, variant int) MixSpec {
+	spec := MixSpec{}
+	spec.Queues = []MQueue{{ID: 1, Weight: 1}}
+	spec.Nodes = []sched.NodeSpec{{ID: 1, Has: true, CPU: 2000, Mem: 256 << 20, Pods: 40}}
+	spec.Jobs = []MJob{{ID: 1, Queue: 1, Min: 2, Phase: 2}}
+	p1 := MTask{}
+	p1.ID, p1.Job, p1.Role, p1.Prio, p1.CPU, p1.Status, p1.Preemptable = 1, 1, 1, 5, 1000, sched.SPending, true
+	p2 := MTask{}
+	p2.ID, p2.Job, p2.Role, p2.Prio, p2.Status, p2.Preemptable = 2, 1, 1, 1, sched.SPending, true
+	switch variant {
+	case 0:
+		p2.InitCPU = int64(r.Range(3, 6)) * 1000
+	case 1:
+		p2.CPU = 500
+		p2.InitCPU = int64(r.Range(3, 6)) * 1000
+	default:
+		p2.CPU = 500
+		p2.Status = sched.SReleasing
+		p2.Node = 1
+		p2.TermPending = true
+	}
+	spec.Tasks = []MTask{p1, p2}
+	for k := r.Range(0, 1); k > 0; k-- { // an extra pending member that fits nowhere
+		e := MTask{}
+		e.ID, e.Job, e.Role, e.CPU, e.Status, e.Preemptable = 3, 1, 1, 9000, sched.SPending, true
+		spec.Tasks = append(spec.Tasks, e)
+	}
+	spec.Actions = vh.Pick(r, [][]int64{{1}, {1, 2}, {2, 1}, {1, 1}})
+	return spec
+}
+
 func genLawOnly(rng *vh.Rng, n int, emit func(id string, sel int, in []int64, kind string, nontrivial bool, desc any)) {
 	for i := 0; i < n; i++ {
 		r := rng.Fork()
 		var spec MixSpec
 		var kind string
+		if i%10 == 4 {
+			variant := (i / 10) % 3
+			spec = specPodShapes(r, variant)
+			emit(fmt.Sprintf("lawonly-%d", i), 4, spec.Enc(), fmt.Sprintf("podshape/law-only/%s/actions=%v",
+				[]string{"init-container-only-request", "init-above-containers", "terminating-bound-not-started"}[variant], spec.Actions), true,
+				map[string]any{"directed": "gang member built from a real pod (round 9)", "variant": variant, "actions": spec.Actions})
+			continue
+		}
 		if i%10 == 9 {
 			spec = specPipelinedGroup(r)
 			emit(fmt.Sprintf("lawonly-%d", i), 4, spec.Enc(), fmt.Sprintf("sub/law-only/directed-pipelined-group/actions=%v", spec.Actions), true,
